@@ -244,7 +244,8 @@ pub fn check(sc: &Scenario, ex: &mut Exec) -> (Verdict, Option<String>) {
                 } else if a.distinct {
                     // excused only if the group really holds duplicate values of the argument
                     let dup_sql = format!(
-                        "SELECT {} count({}) AS c, count(DISTINCT {}) AS d FROM {}{}{}",
+                        "{}SELECT {} count({}) AS c, count(DISTINCT {}) AS d FROM {}{}{}",
+                        q.cte.as_ref().map(|c| format!("WITH s AS ({}) ", c)).unwrap_or_default(),
                         q.keys.iter().map(|k| format!("{} AS {},", k.expr, k.alias)).collect::<Vec<_>>().join(" "),
                         a.arg, a.arg, q.from_clause(), q.where_clause(),
                         if q.keys.is_empty() { String::new() } else { format!(" GROUP BY {}", q.keys.iter().map(|k| k.expr.clone()).collect::<Vec<_>>().join(", ")) }
